@@ -65,3 +65,20 @@ Theorem C18_save_outside_mutex_refuted :
             d_get (c_mem s) 2 = Some 22 /\ d_get (c_stored s) 2 = None.
 Proof. exact unlocked_save_refuted. Qed.
 Print Assumptions C18_save_outside_mutex_refuted.
+
+(** Two dictionary objects for one instance (ShareDataStale): the tasks of the live tree and the tasks pushed by a
+    re-initialisation (retry / continue command).  With ONE shared dictionary a stored key is never lost; with the
+    snapshot the command watcher listed - the code as it is - it is (known finding F-C18-stale-sharedata-after-command,
+    reproduced on the real code by kind sharecmd). *)
+From FF Require Import ShareDataStale.
+
+Theorem C18_shared_dictionary_keeps_keys : forall ls s k,
+  stored s = live s -> has_key (stored s) k -> has_key (stored (srun true s ls)) k.
+Proof. exact shared_dictionary_keeps_keys. Qed.
+Print Assumptions C18_shared_dictionary_keeps_keys.
+
+Theorem C18_stale_snapshot_refuted :
+  exists ls, let s := srun false (sinit []) ls in
+             d_get (stored (srun false (sinit []) (firstn 2 ls))) 1%Z = Some 10%Z /\ d_get (stored s) 1%Z = None /\ d_get (stored s) 2%Z = Some 20%Z.
+Proof. exact stale_snapshot_refuted. Qed.
+Print Assumptions C18_stale_snapshot_refuted.
